@@ -4,7 +4,7 @@ from .c02 import project
 
 PROP = 'C05'
 PREDICATE = 'C05'
-LEAN_TARGETS = ['LLTD.Props.C05', 'LLTD.Props.C05H']
+LEAN_TARGETS = ['LLTD.Props.C05', 'LLTD.Props.C05H', 'LLTD.Props.C05T']
 VARIANT = 'plain'
 EXHAUSTIVE = True
 RULE = ('every tier: ALL frame sequences up to length 2 (thorough: 3, and 4 over nine symbols) over an alphabet of 23 representative frames (frame type x sender x path x service);  all 256 x 256 (ToS, opcode) frames from a stranger while a mapper is active, each followed by a Discover from the '
